@@ -22,8 +22,10 @@ def main():
         jobs.append(Job(P + 'VerifC07Sequence', (2, first, 0), cfg=cfg, max_paths=200000))
         jobs.append(Job(P + 'VerifC07Sequence', (3, first, 1), cfg=cfg, max_paths=400000))
         if t == 'thorough':
-            jobs.append(Job(P + 'VerifC07Sequence', (3, first, 0), cfg=cfg, max_paths=2000000))
-            jobs.append(Job(P + 'VerifC07Sequence', (4, first, 1), cfg=cfg, max_paths=2000000))
+            # length 4 on one contact (lean variant, refused intermediate steps pruned), split over 3 processes per first operation;
+            # length 3 on two contacts with free metadata is ~35 CPU-minutes per first operation and is not registered
+            for i in range(3):
+                jobs.append(Job(P + 'VerifC07Sequence', (4, first, 1), cfg=cfg, max_paths=2000000, shard=(i, 3), label='VerifC07Sequence(4,%d,1)#%d/3' % (first, i)))
     jobs.append(Job(P + 'VerifC07Witness', (), witness=True, cfg=cfg))
     res = chk.run_jobs(jobs)
     finish(chk, res, t,
